@@ -38,7 +38,9 @@ pub static VERIFIERS: Scenario = Scenario {
     stubbed: &["no network: verifiers called directly through cfg-guarded wrappers"],
 };
 
-const STRATEGIES: [&str; 12] = [
+const STRATEGIES: [&str; 13] = [
+    // own key, own valid self-signature, X's identity (as text) as the subject's common name
+    "own-with-x-id-as-common-name",
     "own", "replay-x", "x-spki-resigned", "expired", "not-yet-valid", "no-cert", "chain-own-x", "chain-x-own", "mutated-own", "mutated-x",
     // X's certificate with a handshake signature that is junk labelled with a scheme other than Ed25519
     "replay-x-mislabelled-signature",
@@ -112,6 +114,7 @@ fn run(input: RunInput) -> ScenFuture {
                 "own" | "no-cert" => vec![cert_own.clone()],
                 "replay-x" | "replay-x-mislabelled-signature" => vec![cert_x.clone()],
                 "own-with-x-spki-in-name" => vec![gen_cert_embedding_spki(&k_adv, &x_id.0, "sim")],
+                "own-with-x-id-as-common-name" => vec![gen_cert_common_name(&k_adv, "sim", &[hex(&x_id), format!("{:?}", x_id), x_id.0.iter().map(|b| format!("{b:02X}")).collect::<String>()][r.gen_range(0..3)])],
                 "x-spki-resigned" => vec![gen_cert_spki_signed_by(&kx, &k_adv, "sim")],
                 "expired" => vec![gen_cert_validity(&k_adv, "sim", 1990, 2000)],
                 "not-yet-valid" => vec![gen_cert_validity(&k_adv, "sim", 3000, 3010)],
@@ -172,6 +175,7 @@ fn run(input: RunInput) -> ScenFuture {
             w.event(format!("attempt {k}: role {role} strategy {strat}"));
             let claim_body = Bytes::from(format!("adv-claims-to-be-{}", hex(&x_id)));
             let outcome: String;
+            let mut refuse_first = false;
             if role == 0 {
                 let dialed = if padded {
                     let second = adv_endpoint(&w, AdvSpec {
@@ -214,10 +218,20 @@ fn run(input: RunInput) -> ScenFuture {
                 }
             } else {
                 // H dials the adversary's address
+                // (which may refuse the first attempt outright - CONNECTION_REFUSED at the QUIC
+                // level - and answer the next one: whatever a dial does about a refusal, what it
+                // expects of whoever answers in the end stays what it was)
+                refuse_first = r.gen_bool(0.2);
                 let srv = {
                     let adv_ep = adv.ep.clone();
+                    let mut refuse = refuse_first;
                     tokio::spawn(async move {
                         while let Some(inc) = adv_ep.accept().await {
+                            if refuse {
+                                refuse = false;
+                                inc.refuse();
+                                continue;
+                            }
                             if let Ok(c) = inc.await {
                                 if let Ok(mut s) = c.open_uni().await {
                                     let _ = s.write_all(&wire::preamble(1)).await;
@@ -286,7 +300,7 @@ fn run(input: RunInput) -> ScenFuture {
                 samples.push(json!({"role": role, "strategy": strat, "outcome": outcome}));
             }
             // controls against a vacuous pass: with its own valid certificate the adversary is admitted
-            if !lossy && strat == "own" && role != 2 {
+            if !lossy && strat == "own" && role != 2 && !refuse_first {
                 w.check(outcome.starts_with("admitted") || outcome.starts_with("dial-ok"), "control-not-admitted", "own-cert", || format!("role {role}: {outcome}"));
             }
             if role == 2 {
